@@ -5,6 +5,9 @@ import CkcVerif.Model.BitCard
 import CkcVerif.Model.Two
 import CkcVerif.Model.Parse
 import CkcVerif.Model.Containers
+import CkcVerif.Spec.Layout
+import CkcVerif.Spec.Poker
+import CkcVerif.Lemmas.Abs
 /-!
 # Model driver: one request per line on stdin, one answer per line on stdout.
 
@@ -45,6 +48,59 @@ def showValueHand : Option (Nat × List Nat) → String
 def splitAt (sep : Nat) (xs : List Nat) : List Nat × List Nat :=
   (xs.takeWhile (· != sep), (xs.dropWhile (· != sep)).drop 1)
 
+/-- the `p`-th permutation (0..119) of five positions, factorial number system -/
+def perm5 (p : Nat) : List Nat := Id.run do
+  let mut pool := [0, 1, 2, 3, 4]
+  let mut out : List Nat := []
+  let mut q := p
+  for k in [5, 4, 3, 2, 1] do
+    let i := q % k
+    q := q / k
+    out := out ++ [pool.getD i 0]
+    pool := pool.eraseIdx i
+  return out
+
+def deckArr : Array Nat := Spec.deckWords.toArray
+
+/-- bulk request: every five-card hand whose lowest deck index is `a`, slots permuted by `perm5 p`;
+    per hand `value * 16 + flags` (flags: flush 1, straight 2, wheel 4, validated = fiveCards = value 8),
+    999999 for a panic -/
+def enum5 (a p : Nat) : String := Id.run do
+  let pm := perm5 p
+  let mut out := ""
+  for b in [a+1:52] do
+    for c in [b+1:52] do
+      for d in [c+1:52] do
+        for e in [d+1:52] do
+          let base := #[deckArr[a]!, deckArr[b]!, deckArr[c]!, deckArr[d]!, deckArr[e]!]
+          let h := pm.map fun i => base[i]!
+          let code :=
+            match handRankValue5 T h with
+            | none => 999999
+            | some v =>
+              let ok := handRankValueValidated5 T h == some v && fiveCards T h == some v
+              v * 16 + boolNat (isFlush h) + 2 * boolNat (isStraight h) + 4 * boolNat (isWheel h) + 8 * boolNat ok
+          out := out ++ toString code ++ " "
+  return out
+
+/-- spec-only oracle: every class with its position (1 = strongest) in the order by `Spec.strength` -/
+def oracle5 : String := Id.run do
+  let cs := Lemmas.classes.toArray
+  let st := cs.map fun c => Spec.strength [c.1, c.2.1, c.2.2.1, c.2.2.2.1, c.2.2.2.2.1] c.2.2.2.2.2
+  let sorted := st.qsort (· > ·)
+  let mut out := ""
+  for i in [0:cs.size] do
+    let c := cs[i]!
+    -- position = 1 + number of classes with strictly greater strength (binary search in `sorted`)
+    let s := st[i]!
+    let mut lo := 0
+    let mut hi := sorted.size
+    while lo < hi do
+      let mid := (lo + hi) / 2
+      if sorted[mid]! > s then lo := mid + 1 else hi := mid
+    out := out ++ joinNats [c.1, c.2.1, c.2.2.1, c.2.2.2.1, c.2.2.2.2.1, boolNat c.2.2.2.2.2, lo + 1, s] ++ " "
+  return out
+
 def histOps : List Nat → Option (List Op)
   | [] => some []
   | k :: x :: rest => (histOps rest).map (Op.set k x :: ·)
@@ -61,6 +117,8 @@ def answer (cmd : String) (args : List Nat) : String :=
   | "deck", [i] => toString (deckGet i)
   | "frombc", [x] => toString (fromBinaryCard x)
   | "find", [k] => showOpt (findInProducts T k)
+  | "enum5", [a, p] => enum5 a p
+  | "oracle5", [] => oracle5
   | "ev5", [a, b, c, d, e] =>
     let h := [a, b, c, d, e]
     joinStrs [showValueHand (handRankValueAndHand5 T h), showOpt (handRankValue5 T h),
